@@ -8,6 +8,7 @@ single DEVIATION from it are executed and their histories and return values comp
   folder     a saving folder set
   ctor7/ctorN  sampler (and RL scheduler/agent) objects constructed with seeds 7 / 12345 instead of None
   used       the sampler objects were used by hand before the calibration (samplers whose only carried state is random)
+  warnall    the interpreter's warning filters set to "always" (the harness itself runs with warnings ignored)
   hashseed   the same run in ANOTHER interpreter process with a different PYTHONHASHSEED (selected configurations, all five losses)
 Selected configurations leave the small scope on purpose: a surrogate trained on > 500 rows, a likelihood loss on series of
 length 4100 (real length x simulated length > 2**24).
@@ -26,7 +27,7 @@ from vf.opseq import cal as C
 ID = "C01"
 TITLE = "A calibration run is a pure function of its configuration and seed"
 NONDETERMINISM_IS_VIOLATION = True
-DEVIATIONS = ["twin", "jobs2", "jobs4", "verbose", "folder", "ctor7", "ctorN", "used"]
+DEVIATIONS = ["twin", "jobs2", "jobs4", "verbose", "folder", "ctor7", "ctorN", "used", "warnall"]
 # samplers whose only state between calibrations is random (a reseed must make a used object behave like a fresh one);
 # the particle swarm and CORS keep algorithmic state (swarm, sample counter) by design and are not pre-used
 RESEED_RESETS = {"Halton", "RSequence", "RandomUniform", "BestBatch", "XGBoost", "RandomForest", "GaussianProcess"}
@@ -46,6 +47,8 @@ def apply_dev(cfg, devs):
             c["_folder"] = True
         elif d == "used":
             c["_preuse"] = True
+        elif d == "warnall":
+            c["_warnall"] = True   # the interpreter's warning filters: "always" instead of this harness's "ignore"
         elif d in ("ctor7", "ctorN"):
             sd = 7 if d == "ctor7" else 12345
             for s in c["lineup"]:
@@ -104,8 +107,13 @@ def one_run(cfg):
                             obj.sample(sp, pts, losses)
                     except Exception:  # noqa: BLE001  (a by-hand use that fails, e.g. a singular kernel, is still a use)
                         pass
+        import warnings
+
+        warnall = c.pop("_warnall", False)
         cal = C.build(c, samplers=samplers)
-        with quiet():
+        with quiet(), warnings.catch_warnings():
+            if warnall:
+                warnings.simplefilter("always")
             ret = cal.calibrate(cfg["batches"])
         h = C.history(cal)
         return h, (np.array(ret[0]), np.array(ret[1]))
